@@ -41,6 +41,9 @@ CONFIGS = [
     # a curvilinear grid whose longitude variable stores its two dimensions the other way round than the latitude variable (xarray aligns by
     # name; CF does not ask for the same order): the grid is the latitude variable's (y, x)
     ('CFGrid2D', {'lon_transposed': True}, ['face']),
+    # the coordinate variables named by the caller instead of detected from attributes
+    ('CFGrid1D', {'explicit_names': True}, ['face']),
+    ('CFGrid2D', {'explicit_names': True, 'lon_transposed': True}, ['face']),
 ]
 
 
